@@ -1067,19 +1067,46 @@ def site_tables(ck, cat):
 
 
 def lean_build_own_tables(ck):
-    """ck.lean_build(), making sure the Gen tables the build saw are those of the tree this check is pointed at
-    (every check regenerates all Gen files from ITS tree: two checks running concurrently on different trees
-    overwrite each other's tables)."""
+    """ck.lean_build(), making sure the Gen tables the build saw are those of the tree this check is pointed at.
+    Every check regenerates ALL Gen files from ITS tree before it builds, so two checks running concurrently on
+    different trees (CPROC_REPO) overwrite each other's tables.  First the ordinary ck.lean_build(); if the tables on
+    disk are not this tree's afterwards, regenerate them and build while holding the build lock, and retry."""
+    import fcntl
     import tempfile
-    for attempt in range(4):
-        ck.lean_build()
-        d = tempfile.mkdtemp(prefix="c10gen-", dir=ck.scratch())
-        gen_c10.generate(common.REPO, d)
-        same = all(open(os.path.join(d, f)).read() == open(os.path.join(common.LEAN, "CprocVerif", "Gen", f)).read()
-                   for f in ("ErrorSites.lean", "C10Catalogue.lean"))
+    gen = os.path.join(common.LEAN, "CprocVerif", "Gen")
+    names = ("ErrorSites.lean", "C10Catalogue.lean")
+    d = tempfile.mkdtemp(prefix="c10gen-", dir=ck.scratch())
+    gen_c10.generate(common.REPO, d)
+    want = {f: open(os.path.join(d, f)).read() for f in names}
+
+    def mine():
+        return all(open(os.path.join(gen, f)).read() == want[f] for f in names)
+    ck.lean_build()
+    if mine():
+        return
+    prop, drv = "CprocVerif.Props.%s" % ck.pid, "drv_%s" % ck.pid.lower()
+    for attempt in range(8):
+        ck.notes.append("Gen tables were overwritten by a concurrent run on another tree; rebuilding under the build "
+                        "lock (attempt %d)" % (attempt + 1))
+        lock = open(os.path.join(common.LEAN, ".build.lock"), "w")
+        fcntl.flock(lock, fcntl.LOCK_EX)
+        try:
+            for f in names:
+                open(os.path.join(gen, f), "w").write(want[f])
+            r = common.sh(["lake", "build", prop, drv], cwd=common.LEAN, timeout=3000)
+            ok = r.returncode == 0
+            drv_ok = ok or common.sh(["lake", "build", drv], cwd=common.LEAN, timeout=3000).returncode == 0
+            same = mine()
+        finally:
+            fcntl.flock(lock, fcntl.LOCK_UN)
+            lock.close()
         if same:
+            ck.build_log, ck.proofs_ok, ck.drv_ok = r.stdout, ok, drv_ok
+            if ok:
+                ck.audit()
+            else:
+                ck.notes.append("lake build of %s failed" % prop)
             return
-        ck.notes.append("Gen tables were overwritten by a concurrent run on another tree; rebuilding (attempt %d)" % (attempt + 1))
     raise Broken("Gen/ErrorSites.lean keeps being regenerated from another tree by concurrent checks")
 
 
